@@ -666,15 +666,74 @@ def validate_info(rng, n, res):
                 real = {"err": err_class(e)}
             reqs.append({"fn": "Output_get_info", "args": [True, og, us_(ot), mcode(om), ou, ometa, static, 0, ig, us_(it), mcode(im), iu, imeta, gc, uc, tab]})
             reals.append(real)
+    # Input.exchange_info on real inputs: own metadata from the constructor or with the call (or both / neither), a stub
+    # source that answers with a catalogue info, first and repeated calls
+    if common.TRANSLATION_STATUS.get("Input_exchange_info", {}).get("translated"):
+        class _Src:
+            def __init__(self, ans):
+                self.ans = ans
+
+            def get_info(self, _info):
+                return self.ans
+
+        for _ in range(n // 2):
+            og, sg = rng.choice(gopts), rng.choice(gopts)
+            om, sm = rng.choice(mopts), rng.choice(mopts)
+            if not (fits(om, og) and fits(sm, sg)) or (og is None and isinstance(om, int)) or (sg is None and isinstance(sm, int)):
+                continue
+            ou, su = rng.choice([None] + uids), rng.choice([None] + uids)
+            if og is not None and rng.random() < 0.5:
+                sg = og
+            if rng.random() < 0.5:
+                su = ou
+            if rng.random() < 0.4:
+                sm = om
+            try:
+                own = fm.Info(time=None, grid=gobj(og), mask=mobj(om), units=None if ou is None else c07.unit_obj(ou))
+                own.mask = mobj(om)
+                src = fm.Info(time=None, grid=gobj(sg), mask=mobj(sm), units=None if su is None else c07.unit_obj(su))
+                src.mask = mobj(sm)
+            except Exception:  # noqa
+                continue
+            if (own.units is None) != (ou is None) or (src.units is None) != (su is None):
+                continue
+            mode = rng.choice(["ctor", "ctor", "call", "call", "both", "neither"])
+            inp = fm.Input(name="i", info=own if mode in ("ctor", "both") else None)
+            inp._source = _Src(src)
+            tab = me_table([(a, b, g1, g2) for a in (om, sm) for b in (om, sm) for g1 in (og, sg) for g2 in (og, sg)])
+            gc = [[og, sg]] if og is not None and safe(gobj(og).compatible_with, gobj(sg)) else []
+            uc = [[ou, su]] if ou is not None and su is not None and safe(fm.data.tools.compatible_units, c07.unit_obj(ou), c07.unit_obj(su)) else []
+            orig_copy = fm.Info.copy_with
+            fm.Info.copy_with = lambda self_, *a, **k: self_ if self_ is src else orig_copy(self_, *a, **k)  # the merged info is not part of the slice
+            try:
+                for _call in range(rng.choice([1, 1, 2])):
+                    before = [bool(inp._in_info_exchanged), inp._input_info is not None, mode in ("call", "both")]
+                    try:
+                        inp.exchange_info(own if mode in ("call", "both") else None)
+                        real = {"ok": True}
+                    except Exception as e:  # noqa
+                        # (an error of `get_transform_to` comes after the input was marked: the gate itself succeeded)
+                        real = {"ok": True} if (inp._in_info_exchanged and not before[0]) else {"err": err_class(e)}
+                    reqs.append({"fn": "Input_exchange_info", "args": before + [og, mcode(om), ou, sg, mcode(sm), su, gc, uc, tab]})
+                    reals.append(real)
+                    if mode in ("ctor",) and "ok" in real:
+                        mode = "ctor"
+                    elif "ok" in real and mode == "call":
+                        mode = "ctor"       # the merged info is stored: a further call brings nothing with it
+            finally:
+                fm.Info.copy_with = orig_copy
     if not reqs:
         return
-    stats = {"masks_compatible": 0, "Info_accepts": 0, "Output_get_info": 0, "accepted": 0, "mismatch": 0}
+    stats = {"masks_compatible": 0, "Info_accepts": 0, "Output_get_info": 0, "Input_exchange_info": 0, "accepted": 0, "mismatch": 0}
     for rq, real, lv in zip(reqs, reals, _trdriver(reqs)):
         stats[rq["fn"]] += 1
         stats["accepted"] += bool(real)
         if isinstance(real, dict):
             if "err" in real or "err" in lv:
                 agree = real.get("err") == lv.get("err")
+            elif rq["fn"] == "Input_exchange_info":
+                agree = lv["ok"] is True and real["ok"] is True
+                stats["accepted"] += 1
             else:
                 ex, (g, (md, t)) = lv["ok"][0], (lv["ok"][1][0], (lv["ok"][1][1][0], lv["ok"][1][1][1]))
                 agree = [ex, g, [list(p) for p in md], t] == real["ok"]
